@@ -538,6 +538,43 @@ pub fn run_thr(trace: &Trace) -> (RunReport, Vec<u8>) {
             }
         }
 
+        // timestamps of the residents (hook H5): the write time kept for a value lies within the
+        // interval of clock readings of the insert that wrote it; the access time between that
+        // insert's first reading and the last reading of any hit that returned the value
+        if cfg.has_expiry() {
+            for e in &snap.entries {
+                let vid = e.value as u32;
+                let (lo, hi) = match hist.iter().find(|r| matches!(&r.op, Op::Insert { vid: v, .. } if *v == vid) && matches!(r.res, Res::Unit)) {
+                    Some(w) => (w.clock_lo, w.clock_hi),
+                    None if prologue_writes.iter().any(|p| p.1 == vid) => (0, 0),
+                    None => continue,
+                };
+                rep.flag("timestamp_checks", 1);
+                if let (Some(_), Some(lm)) = (cfg.ttl, e.last_modified) {
+                    if lm > hi {
+                        rep.viol("C05.thr-write-time-late", format!("after quiescence: key {} value {} was written at a reading in [{}, {}] but the cache keeps {} as its write time", e.key, vid, lo, hi, lm), srep.steps, Some(e.key as u16));
+                    } else if lm < lo {
+                        rep.viol("C03.thr-write-time-early", format!("after quiescence: key {} value {} was written at a reading in [{}, {}] but the cache keeps {} as its write time (it expires early)", e.key, vid, lo, hi, lm), srep.steps, Some(e.key as u16));
+                    }
+                }
+                if let (Some(_), Some(la)) = (cfg.tti, e.last_accessed) {
+                    let mut upper = hi;
+                    for g in &hist {
+                        if let (Op::Get { .. }, Res::Got(Some(v))) = (&g.op, &g.res) {
+                            if *v == vid {
+                                upper = upper.max(g.clock_hi);
+                            }
+                        }
+                    }
+                    if la > upper {
+                        rep.viol("C06.thr-access-time-late", format!("after quiescence: key {} value {}: last possible access at reading {} but the cache keeps {} as its access time", e.key, vid, upper, la), srep.steps, Some(e.key as u16));
+                    } else if la < lo {
+                        rep.viol("C03.thr-access-time-early", format!("after quiescence: key {} value {} was written at a reading >= {} but the cache keeps {} as its access time (it expires early)", e.key, vid, lo, la), srep.steps, Some(e.key as u16));
+                    }
+                }
+            }
+        }
+
         // final state: every resident value must have been written to that key
         for e in &snap.entries {
             match vid_written.get(&(e.value as u32)) {
